@@ -773,6 +773,17 @@ def T_acconflict(ctx, lib, b, paths):
         other = zc[1][0] if zc[1] else None
         ok_ops = other is not None and bool(flow.find(other, lambda n_: n_[0] == "call" and flow.fname(n_[1]) == "Adf::apply_interpretation"))
         ctx.ob(rule, "operands", ok_ops, where=c.where(), expected="cur_interpr.iter().zip(apply_interpretation(&self.ac, &cur_interpr).iter())", found=flow.show(other)[:160] if other else None)
+        if ok_ops:
+            # which is which: the conditions that are evaluated are self.ac, the interpretation they are evaluated under is the vector on the other side of the zip.
+            # With the two swapped the call returns (about) the interpretation itself, no conflict is ever seen, and in two-valued mode a two-valued
+            # interpretation that contradicts its conditions is delivered as a model (third sweep).
+            from mirlib.pat import skip_copies
+            ap = flow.find(other, lambda n_: n_[0] == "call" and flow.fname(n_[1]) == "Adf::apply_interpretation")[0]
+            a_ac = skip_copies(ap[3][1]) if len(ap[3]) > 2 else None
+            a_int = skip_copies(ap[3][2]) if len(ap[3]) > 2 else None
+            ok_args = a_ac == ("field", ("param", 1), "ac") and a_int == skip_copies(src)
+            ctx.ob(rule, "operands.argument-roles", ok_args, where=c.where(), expected="apply_interpretation(ac = self.ac, interpretation = the zipped vector)",
+                   found=flow.show(ap)[:200])
         eng = ctx.engine([lib])
         for cur in shared.CLASSES:
             for ac in shared.CLASSES:
